@@ -15,6 +15,61 @@ ASSUMPTIONS = ['Eigen kernels and std::sort are correct', 'instantiations listed
 BASE = 'Spectra::GenEigsBase'
 
 
+def neighbour_overwrite_guard(ctx, rule='neighbour-overwritten-only-for-a-conjugate-pair'):
+    """The complex-shift back-transformation writes the conjugate of the eigenvalue it has just computed into the NEXT slot of the
+    Ritz values.  That is right only if slot i + 1 holds the conjugate partner of slot i -- a fact about the Ritz values nu as the
+    decomposition of H delivered them (real ones have an imaginary part of exactly zero, complex ones come as exact, adjacent
+    conjugate pairs: C09 / the stable index sort).  It must therefore be decided by an EXACT test on nu.  A test on the
+    back-transformed lambda is not that: lambda comes out of a square root whose argument 1 - 4 nu^2 Im(sigma)^2 is zero up to
+    rounding when a real eigenvalue sits at distance |Im sigma| from Re sigma (a case the property names), so a real lambda picks
+    up a rounding-level imaginary part, is taken for one half of a pair, and the neighbouring, different eigenvalue is overwritten."""
+    from . import paths
+    from .sym import sym, show, atoms
+    fns = ctx.F.insts('Spectra::GenEigsComplexShiftSolver::sort_ritzpair')
+    if not fns:
+        raise AnalysisBroken('GenEigsComplexShiftSolver::sort_ritzpair is not instantiated')
+    n = 0
+    for fn in fns:
+        lps = [lp for lp in fn.walk() if lp['k'] == 'ForStmt']
+        for x in fn.walk():
+            if not (x['k'] in ('BinaryOperator', 'CXXOperatorCallExpr') and x.get('op') == '='):
+                continue
+            t = sym(fn, x, inline=False)
+            if not (isinstance(t[1], tuple) and t[1][0] in ('[]', '()') and t[1][1] == ('F', 'm_ritz_val')):
+                continue
+            idx = t[1][2]
+            if not (isinstance(idx, tuple) and idx[0] == '+' and ('lit', '1') in idx[1:]):
+                continue            # a write of the slot being processed
+            I = [u for u in idx[1:] if u != ('lit', '1')][0]
+            NU = ('[]', ('F', 'm_ritz_val'), I)
+            n += 1
+            guards = [(c, tr) for c, tr in paths.enclosing_assumptions(fn, x) if any(fn.within(c, lp['body']) for lp in lps)]
+            exact = []
+            rounded = []
+            for c, tr in guards:
+                g = sym(fn, c)           # locals inlined: shows where the tested quantity comes from
+                txt = show(g)
+                forms = (('!=', ('call', 'imag', NU), ('lit', '0')), ('!=', ('lit', '0'), ('call', 'imag', NU)), ('call', 'is_complex', NU),
+                         ('!=', ('imag', NU), ('lit', '0')), ('!=', ('lit', '0'), ('imag', NU)))
+                if tr and g in forms:
+                    exact.append(txt)
+                elif 'sqrt' in txt or 'epsilon' in txt:
+                    rounded.append(fn.s(c)[:60])
+            # nu must be read before slot i is overwritten: the guard's operand is a local initialised from the slot ahead of the first write
+            inst = 'GenEigsComplexShiftSolver::sort_ritzpair'
+            if exact:
+                ctx.ok(rule, inst, fn.qname, '`%s` is written under the exact test `%s` on the Ritz value of slot %s' % (show(t[1]), exact[0][:60], show(I)))
+            elif rounded:
+                ctx.fail(rule, inst, fn.qname,
+                         '`%s = %s` is guarded by `%s`, a tolerance test on the back-transformed value (it comes out of sqrt(1 - 4 nu^2 Im(sigma)^2)): for a real eigenvalue at distance '
+                         '|Im sigma| from Re sigma the square root is rounding noise, lambda gets an imaginary part of about sqrt(eps), is taken for half of a conjugate pair and the '
+                         'neighbouring eigenvalue is overwritten by its conjugate' % (show(t[1]), show(t[2])[:30], rounded[0]))
+            else:
+                raise AnalysisBroken('%s: write of %s under a guard the rule does not recognise: %s' % (fn.qname, show(t[1]), [fn.s(c)[:50] for c, _ in guards]))
+    if n < 1:
+        raise AnalysisBroken('no write of a neighbouring Ritz-value slot found in the complex-shift back-transformation')
+
+
 def run(ctx):
     from . import factorization as fz
     fz.resumed_at_own_dimension(ctx, BASE)
@@ -27,6 +82,7 @@ def run(ctx):
     eigsbase.accessor_agreement(ctx, BASE)
     shiftsolvers.backtransform_before_sort(ctx, BASE, 2)
     shiftsolvers.shifted_classes_override(ctx, BASE)
+    neighbour_overwrite_guard(ctx)
     from . import c13
     c13.index_ranges(ctx, bases=('Spectra::GenEigsBase',), floor=60)
     from . import stale
